@@ -206,10 +206,13 @@ func runC10(c *core.Ctx) {
 		hookMu.Lock()
 		us := hookRng.Intn(100)
 		hookMu.Unlock()
-		if closeCalled.Load() && slowYields.Add(1) < 100 {
-			// a maintenance task in flight while Close is running is kept in flight: Close has to wait for the
-			// background worker, and whatever Close does not wait for is still running when it returns
-			time.Sleep(8 * time.Millisecond)
+		if closeCalled.Load() && !closed.Load() && slowYields.Add(1) <= 3 {
+			// maintenance that is in flight while Close runs is held at its yield point until Close has returned (at most
+			// 300 ms, three times per run): Close has to wait for the background worker anyway - then this only delays
+			// it - and whatever Close does NOT wait for is still inside Compact when Close returns
+			for i := 0; i < 300 && !closed.Load(); i++ {
+				time.Sleep(time.Millisecond)
+			}
 			return
 		}
 		if us > 50 {
@@ -236,6 +239,12 @@ func runC10(c *core.Ctx) {
 	fireClose := func() {
 		if closeCalled.CompareAndSwap(false, true) {
 			go func() {
+				if bg {
+					// let Close coincide with background maintenance in flight, if there is any within the next 50 ms
+					for i := 0; i < 50 && maintenanceStraggler() == ""; i++ {
+						time.Sleep(time.Millisecond)
+					}
+				}
 				closeT0 = clock.Tick()
 				if maintenanceStraggler() != "" {
 					bgInFlight.Add(1)
